@@ -298,6 +298,7 @@ PROPS = {
         ],
         "replays": [
             {"bin": "d8_owner_name_special_chars", "crate": "replay_net", "finding": "D8"},
+            {"bin": "d17_owner_leading_dollar", "crate": "replay_net", "finding": "D17"},
         ],
         "explanation": "per-symbol writer/reader agreement, complete over all octet values (the escaping rules shared by the presentation "
                        "writer and the zone-file reader are per octet and context-free, so all 256 cases decide this layer); binary "
@@ -343,6 +344,9 @@ PROPS = {
         "level": "other",
         "units": ["zfsource"],
         "kani": [],
+        "replays": [
+            {"bin": "d16_zonefile_txt_at_eof", "crate": "replay_net", "finding": "D16"},
+        ],
         "explanation": "the totality half of the statement, for the tokenizer every zone-file read goes through "
                        "(zonefile/inplace.rs::SourceBuf, real text): next_item (white space, parentheses, comments, line ends, quotes) "
                        "terminates on every buffer, never reads outside it, its parenthesis counter never underflows and its "
